@@ -51,8 +51,11 @@ def evaluate(mid, checks=None, wall="40", suite=True):
     checks = checks or meta.get("checks") or [meta["property"]]
     wt = tempfile.mkdtemp(prefix="mut_%s_" % mid, dir="/tmp")
     os.rmdir(wt)
-    sh(["git", "-C", "/repo", "worktree", "add", "-q", "--detach", wt, "HEAD"])
-    res = {"base_commit": sh(["git", "-C", "/repo", "rev-parse", "--short", "HEAD"]).stdout.strip()}
+    # a seeded change is a patch against the tree it was written for: meta["base"] pins that commit when the patch no
+    # longer applies to HEAD (a later fix rewrote the lines it touches)
+    base = meta.get("base", "HEAD")
+    sh(["git", "-C", "/repo", "worktree", "add", "-q", "--detach", wt, base])
+    res = {"base_commit": sh(["git", "-C", wt, "rev-parse", "--short", "HEAD"]).stdout.strip()}
     try:
         demo = next((f for f in os.listdir(d) if f.startswith("demo") and f.endswith(".py")), None)
         env = dict(os.environ, PYTHONPATH="%s/src:%s/tests" % (wt, wt))
